@@ -76,7 +76,7 @@ func genScript(en *Env, nkeys int, vs *h.Values, n int, batches bool) []scriptSt
 		case c < 94:
 			sc = append(sc, scriptStep{"Restart", 0, 0, 0})
 		case c < 96:
-			sc = append(sc, scriptStep{"Iterate", 0, 0, r.Intn(256)})
+			sc = append(sc, scriptStep{"Iterate", 0, 0, r.Intn(1024)})
 		case c < 99:
 			// an iterator that stays open across an overwrite and a delete of keys it has not yielded yet
 			sc = append(sc, scriptStep{"IterMut", k, val(), r.Intn(2)})
@@ -145,9 +145,31 @@ func iterate(e *h.Eng, a int) {
 				it.Rewind()
 				seq = append(seq, -9)
 			}
+			if a&256 == 256 {
+				// a Seek to any key of the universe, wherever the cursor is (the target may lie behind it): C10 does not say
+				// what that does, but whatever it does must not depend on the configuration (C14)
+				for n := 0; it.Valid() && n < 3; n++ {
+					if err := take(); err != nil {
+						return err
+					}
+					it.Next()
+				}
+				it.Seek(e.U.Key(1 + ((a>>4)&7)%e.U.N()))
+				seq = append(seq, -10)
+			}
 			for ; it.Valid(); it.Next() {
 				if err := take(); err != nil {
 					return err
+				}
+			}
+			if a&512 == 512 {
+				// ... and a Seek on the exhausted iterator
+				it.Seek(e.U.Key(1 + ((a>>5)&7)%e.U.N()))
+				seq = append(seq, -11)
+				for ; it.Valid(); it.Next() {
+					if err := take(); err != nil {
+						return err
+					}
 				}
 			}
 			e.TxAdd("I %d %v|", a, seq)
@@ -273,7 +295,8 @@ func profLockstep(en *Env) {
 			}
 		}
 		for _, a := range []int{0, 1, 4, 5, 8 + 16*en.R.Intn(8), 9 + 16*en.R.Intn(8), 12 + 16*en.R.Intn(8), 13 + 16*en.R.Intn(8),
-			136 + 16*en.R.Intn(8), 137 + 16*en.R.Intn(8), 136 + 16*en.R.Intn(8), 137 + 16*en.R.Intn(8)} {
+			136 + 16*en.R.Intn(8), 137 + 16*en.R.Intn(8), 136 + 16*en.R.Intn(8), 137 + 16*en.R.Intn(8),
+			256 + 16*en.R.Intn(8), 257 + 16*en.R.Intn(8), 264 + 16*en.R.Intn(8), 265 + 16*en.R.Intn(8), 768 + 16*en.R.Intn(16), 769 + 16*en.R.Intn(16)} {
 			sc = append(sc, scriptStep{"Iterate", 0, 0, a})
 		}
 		var cfgs []h.Cfg
